@@ -9,6 +9,8 @@ from .common import ob_dict, run_jobs
 COORDS = ['position', 'source_position', 'sample_position', 'incident_beam', 'scattered_beam', 'L1', 'L2', 'Ltotal', 'two_theta',
           'incident_energy', 'final_energy']
 ORIGINS = ['tof', 'wavelength', 'energy', 'Q']
+# further inputs some targets need (hkl, time_at_sample): symbolic presence as well, beyond the 11 of the quantifier
+EXTRA_COORDS = ['ub_matrix', 'u_matrix', 'b_matrix', 'sample_rotation', 'pulse_time']
 
 # ---------------------------------------------------------------------------------------------
 # Oracle: dependency tables transcribed from the user guide ("Coordinate transformations"), per mode.
@@ -216,7 +218,7 @@ def job(j, seed):
     fresh_run()
     obs, cands = [], []
     tag = f'{origin}->{target},scatter={scatter}'
-    P = {c: C.B('z3', z3.Bool(f'has_{c}')) for c in [*COORDS, origin]}
+    P = {c: C.B('z3', z3.Bool(f'has_{c}')) for c in [*COORDS, *EXTRA_COORDS, origin]}
     ei, ef = P['incident_energy'], P['final_energy']
 
     def run():
@@ -325,7 +327,7 @@ def run(chk):
     chk.stubs = ['data.transform_coords -> documented contract model (present => input, else rule, else KeyError(name))',
                  'data.coords.__contains__ -> symbolic Boolean']
     chk.axioms = []
-    chk.assumptions = ['kernel semantics are C01/C03/C05', 'DataArray vs Dataset differ only inside scipp', 'coordinates outside the 11 (u_matrix, pulse_time, ...) absent']
+    chk.assumptions = ['kernel semantics are C01/C03/C05/C08', 'DataArray vs Dataset differ only inside scipp', 'beyond the 11 coordinates of the quantifier, presence of ub_matrix, u_matrix, b_matrix, sample_rotation, pulse_time is symbolic too']
 
 
 # ---------------------------------------------------------------------------------------------
@@ -349,6 +351,11 @@ def _real_case(origin, target, scatter, present, rng=None):
         'wavelength': sc.array(dims=['wavelength'], values=[1.0, 2.0, 3.0], unit='angstrom'),
         'energy': sc.array(dims=['energy'], values=[1.0, 2.0, 3.0], unit='meV'),
         'Q': sc.array(dims=['Q'], values=[1.0, 2.0, 3.0], unit='1/angstrom'),
+        'ub_matrix': sc.spatial.linear_transform(value=[[1.0, 0.2, 0.0], [0.0, 1.1, 0.3], [0.1, 0.0, 0.9]], unit='1/angstrom'),
+        'u_matrix': sc.spatial.rotations_from_rotvecs(sc.vector([0.1, 0.2, 0.3], unit='rad')),
+        'b_matrix': sc.spatial.linear_transform(value=[[1.0, 0.2, 0.0], [0.0, 1.1, 0.3], [0.1, 0.0, 0.9]], unit='1/angstrom'),
+        'sample_rotation': sc.spatial.rotations_from_rotvecs(sc.vector([0.3, -0.2, 0.1], unit='rad')),
+        'pulse_time': sc.scalar(0.0, unit='us'),
     }
     for c in present:
         coords[c] = vals[c]
@@ -386,7 +393,7 @@ def replay_real(case):
             if target == origin:
                 continue
             scatter = bool(rng.integers(2))
-            present = [c for c in COORDS if rng.random() < 0.55] + ([origin] if rng.random() < 0.9 else [])
+            present = [c for c in COORDS if rng.random() < 0.55] + [c for c in EXTRA_COORDS if rng.random() < 0.5] + ([origin] if rng.random() < 0.9 else [])
             got = _real_case(origin, target, scatter, present)
             exp = _oracle_outcome(origin, target, scatter, present)
             if got[0] != exp[0]:
